@@ -124,6 +124,9 @@ def run(rep: Report, tier: str, only=None) -> None:
 	rep.extra.update({'programs': stats['programs'], 'disagreements_checked': stats['replayed'], 'equivalent': stats['unsat'], 'differing': stats['sat'], 'rejected_by_transpiler': stats['rejected'], 'outside_encodable_subset': stats['unsupported'],
 		'solver_unknown': stats['unknown'], 'witnesses_validated_with_gpp': stats['witnesses_checked'], 'per_category': per_cat, 'wall_s_transpile_and_solve': round(time.time() - t0, 1),
 		'trusted_base': ['z3 5.1.0', 'tv/sem.py + tv/fronts.py C++ subset semantics (validated against g++ on witnesses each run)', 'CPython ast', 'g++ -std=c++20 for replays']})
+	# one run over several modules: the emitted text of a module does not depend on the others (closed)
+	if not only or 'runs' in only:
+		rep.run_closed('runs', 'harness.c01_runs', 'runs_closed', {}, 'two modules built from the list / class / statement templates (same tree paths, different names and operators) transpiled by one transpiler object in three orders: every module gets the text it gets alone (closed)')
 	# recorded witnesses: an open finding is announced while it still reproduces, a repaired one must stay repaired
 	for e in rep.known_findings():
 		w = e.get('witness') or {}
